@@ -19,6 +19,9 @@ CHECKS = {
  "C09": ("Generated well-typed programs and single-point mutants (literal type, variable of the other type, sigil add/flip/remove, cast wrap/unwrap, operator change, branch types, call arity, declaration type, float conditions/counts/clobbers, assignment target) at uniformly chosen nodes incl. nested free blocks, loop bodies, conditions, declarations, call arguments, const items: Ok/Err of passes::type_check::run == verdict of the reference typer (both directions); for accepted programs the checker's expression types == the types of AstVm-evaluated values.",
          "The reference typer implements the rules listed in the property statement; function items are not generated.",
          "property-based mutation testing against a reference typer"),
+ "C10": ("Generated scope trees over a pool of 5 names plus register aliases and builtin consts (shadowing, forward references to consts, same-block redeclaration, use in own initialiser, locals inside const initialisers, aliases in const context): Ok/Err of resolve_names and the definition classes of every identifier occurrence (matched by byte offset) vs an independent scope model; and injective renaming of all declarations leaves the lowered instructions (and Ok/Err) unchanged.",
+         "One shape is treated as unspecified (a local shadowing an outer const, used inside a const initialiser: the code's documentation and behaviour disagree). Function items are not generated.",
+         "property-based testing against a reference scope model + metamorphic renaming"),
  "C11": ("Exhaustive operator x boundary-operand tables (bit-exact against M-ops), random constant trees, partially constant trees under AstVm before/after const_simplify over 8 valuations, const chains (named vs inlined lowering, debug-info values, cycles, undefined operations must be diagnosed).",
          "Logical operators compared by truthiness only; float->int casts outside i32 excluded; NaN payloads not compared.",
          "exhaustive boundary tables + property-based testing against a reference evaluator"),
